@@ -666,6 +666,7 @@ impl<Context: Send + Sync + 'static> RpcModule<Context> {
 				// NOTE: the extensions can't be mutated at this point so
 				// it's safe to clone it.
 				let extensions2 = extensions.clone();
+				let id2 = id.clone();
 
 				tokio::task::spawn_blocking(move || {
 					let rp = callback(params, ctx, extensions2.clone()).into_response();
@@ -675,8 +676,7 @@ impl<Context: Send + Sync + 'static> RpcModule<Context> {
 					Ok(r) => r,
 					Err(err) => {
 						tracing::error!(target: LOG_TARGET, "Join error for blocking RPC method: {:?}", err);
-						MethodResponse::error(Id::Null, ErrorObject::from(ErrorCode::InternalError))
-							.with_extensions(extensions)
+						MethodResponse::error(id2, ErrorObject::from(ErrorCode::InternalError)).with_extensions(extensions)
 					}
 				})
 				.boxed()
